@@ -56,6 +56,14 @@ def matrices():
         Md = M.copy()
         np.fill_diagonal(Md, [0.5 + 0.25 * k for k in range(len(M))])
         out[name + '+diag'] = Md
+    # memory layouts: Fortran-ordered, a transposed view of a C array, a strided view into a larger buffer
+    for name in list(out):
+        M = out[name]
+        out[name + '/F'] = np.asfortranarray(M)
+        out[name + '/T'] = np.ascontiguousarray(M.T).T
+        big = np.zeros((2 * len(M), 2 * len(M)))
+        big[::2, ::2] = M
+        out[name + '/strided'] = big[::2, ::2]
     return out
 
 
@@ -80,6 +88,17 @@ def small_matrices():
             np.fill_diagonal(Ad, [1.0, -1.0, 0.5])
             _SMALL['su3_%d+diag' % idx] = Ad
     return _SMALL
+
+
+def keep_layout(M):
+    """fresh array with the same values AND the same memory layout as M (plain .copy() would make it C-ordered)"""
+    if M.flags.c_contiguous:
+        return M.copy()
+    if M.flags.f_contiguous:
+        return np.asfortranarray(M.copy())
+    big = np.zeros((2 * M.shape[0], 2 * M.shape[1]))
+    big[::2, ::2] = M
+    return big[::2, ::2]
 
 
 def community_vectors(n):
@@ -149,7 +168,7 @@ def build_programs():
                     if any(p.name == 'ci' for p in rest):
                         extra_sets = [{'ci': v} for v in community_vectors(len(M)).values()]
                     for ex in extra_sets:
-                        args = [M.copy()]
+                        args = [keep_layout(M)]
                         for p in rest:
                             args.append(ex['ci'].copy() if p.name == 'ci' else SCALARS[p.name])
                         yield (mname + ('' if not ex else '/ci'), args, dict(kw))
